@@ -205,7 +205,11 @@ CLAIMS["C15"] = dict(
         "non-loop method that captures the start position returns a truthy value, that value is what the action of one of "
         "its alternatives produced in an environment where start_lineno/start_col_offset are those of the token at the "
         "entry position and -- if the alternative uses LOCATIONS and the matched range holds a non-layout token -- "
-        "end_lineno/end_col_offset are those of the LAST non-layout token INSIDE the matched range. List level: the token "
+        "end_lineno/end_col_offset are those of the LAST non-layout token INSIDE the matched range. "
+        "C15_generated_parsers_give_actions_the_span_of_the_match (Proofs/GenWf.v generated_loc_ok): its two hypotheses on the "
+        "method are a theorem about the generator model for EVERY grammar of the class of C05's generator theorem (invariant "
+        "over the call maker and the work list), so the statement holds of every method with a LOCATIONS alternative in every "
+        "generated parser; the class condition is evaluated on all shipped grammar files (python.gram among them). List level: the token "
         "whose end is used is the last token before the cursor that is not NEWLINE/INDENT/DEDENT/ENDMARKER, independent of "
         "how many tokens were fetched beyond the cursor. Instance condition (every method with a LOCATIONS alternative has "
         "m_locations and is not a loop helper) evaluated in Coq on the generator model's module of every explored grammar. "
